@@ -129,6 +129,143 @@ fn main() {
             out.flush().unwrap();
             println!("{{\"events\":{},\"vector_mismatches\":0,\"thread_mismatches\":{bad}}}", tmis.len());
         }
+        Some("cons") => {
+            // C11 sweep: every line is {"sd","ed","dv":[[d, verdict]...]} emitted by MC_ConsAll; the constructor is called at every d
+            // through several (std offset, dst offset, end time) splits; start time = d + std - dst + end (input assembly, no verdict here)
+            let splits: [(i64, i64, i64); 6] = [(0, 0, 0), (0, 3600, 7200), (-89999, 93599, 0), (93599, -89999, 604799), (3600, 0, -604799), (-18000, -14400, 90000)];
+            let inp = BufReader::new(std::fs::File::open(&args[2]).expect("cannot open input"));
+            let mut out = BufWriter::new(std::fs::File::create(&args[3]).expect("cannot create output"));
+            let (mut pairs, mut calls, mut mism) = (0u64, 0u64, 0u64);
+            let mut st = exec::State::new();
+            for line in inp.lines() {
+                let line = line.unwrap();
+                if line.trim().is_empty() {
+                    continue;
+                }
+                let v: Value = serde_json::from_str(&line).expect("cons line");
+                pairs += 1;
+                for dv in v["dv"].as_array().expect("dv") {
+                    let d = dv[0].as_i64().unwrap();
+                    let verdict = dv[1].as_i64().unwrap();
+                    for (so, dof, et) in splits.iter() {
+                        let stt = d + so + et - dof;
+                        if stt.abs() >= 604800 {
+                            continue;
+                        }
+                        let a = serde_json::json!({
+                            "std": {"off": so, "dst": 0, "des": [83, 84, 68]}, "dst": {"off": dof, "dst": 1, "des": [68, 83, 84]},
+                            "sd": v["sd"], "st": stt, "ed": v["ed"], "et": et,
+                        });
+                        let r = exec::exec("rule", &a, &mut st);
+                        calls += 1;
+                        let good = if verdict == 1 { r.get("ok").is_some() } else { r.get("err").and_then(|e| e.as_str()) == Some("TransitionRule.InconsistentRule") };
+                        if !good {
+                            mism += 1;
+                            if mism <= 50 {
+                                serde_json::to_writer(&mut out, &serde_json::json!({"op": "rule", "a": a, "r": r, "x": [if verdict == 1 { serde_json::json!({"ok": 1}) } else { serde_json::json!({"err": "TransitionRule.InconsistentRule"}) }], "m": 0})).unwrap();
+                                out.write_all(b"\n").unwrap();
+                            }
+                        }
+                    }
+                }
+            }
+            out.flush().unwrap();
+            println!("{{\"pairs\":{pairs},\"calls\":{calls},\"mismatches\":{mism}}}");
+        }
+        Some("lemma") => {
+            // Native factorisation lemmas for C01 / C02 (the implementation compared WITH ITSELF; the tables these reduce to - every day of
+            // one cycle at 00:00:00, every second of one day, the cycle indices - are validated against the TLA+ specification by TLC):
+            //  A. for every day d of the 400-year cycle 2000..2399 and every second s: date(d, s) = date(d, 0) and time(d, s) = time(0, s)
+            //  B. for every day d and 64 cycle indices c: fields(c, d) = fields(0, d) with the year shifted by 400 c
+            //  C. timegm is the inverse: UtcDateTime::new(fields(c, d, s)).unix_time() = the instant, for every d, the cycles of B, three seconds of day
+            use tz::UtcDateTime;
+            const B: i64 = 946684800; // 2000-01-01T00:00:00Z
+            const DAYS: i64 = 146097;
+            let nthreads: i64 = args.get(2).and_then(|s| s.parse().ok()).unwrap_or(16);
+            let cycles: Vec<i64> = {
+                let mut v: Vec<i64> = vec![-5368715, -5368714, -5368713, -1342178, -1000, -6, -5, -4, -3, -2, -1, 0, 1, 2, 3, 1000, 1342177, 5368702, 5368703, 5368704];
+                let mut x: i64 = 12345;
+                while v.len() < 64 {
+                    x = (x * 6364136223846793005i64.wrapping_add(0) % 1000003 + 1442695) % 5368700;
+                    v.push(if v.len() % 2 == 0 { x } else { -x });
+                }
+                v
+            };
+            let date_of = |t: i64| UtcDateTime::from_timespec(t, 0).map(|x| (x.year(), x.month(), x.month_day(), x.week_day(), x.year_day()));
+            let time_of = |t: i64| UtcDateTime::from_timespec(t, 0).map(|x| (x.hour(), x.minute(), x.second()));
+            let times: Vec<(u8, u8, u8)> = (0..86400).map(|s| time_of(B + s).unwrap()).collect();
+            let times = std::sync::Arc::new(times);
+            let cycles = std::sync::Arc::new(cycles);
+            let mut handles = Vec::new();
+            for t in 0..nthreads {
+                let times = times.clone();
+                let cycles = cycles.clone();
+                handles.push(std::thread::spawn(move || {
+                    let mut bad: Vec<(String, i64)> = Vec::new();
+                    let (mut na, mut nb, mut nc) = (0u64, 0u64, 0u64);
+                    let mut d = t;
+                    while d < DAYS {
+                        let base = date_of(B + d * 86400).unwrap();
+                        for s in 0..86400i64 {
+                            let x = UtcDateTime::from_timespec(B + d * 86400 + s, 0).unwrap();
+                            na += 1;
+                            if (x.year(), x.month(), x.month_day(), x.week_day(), x.year_day()) != base || (x.hour(), x.minute(), x.second()) != times[s as usize] {
+                                if bad.len() < 20 {
+                                    bad.push(("A".into(), B + d * 86400 + s));
+                                }
+                            }
+                        }
+                        for &c in cycles.iter() {
+                            let tt = B + (c * DAYS + d) * 86400;
+                            nb += 1;
+                            match date_of(tt) {
+                                Ok(f) => {
+                                    if (f.0 as i64, f.1, f.2, f.3, f.4) != (base.0 as i64 + 400 * c, base.1, base.2, base.3, base.4) && bad.len() < 20 {
+                                        bad.push(("B".into(), tt));
+                                    }
+                                    for s in [0i64, 43200, 86399] {
+                                        let x = UtcDateTime::from_timespec(tt + s, 0).unwrap();
+                                        nc += 1;
+                                        let back = UtcDateTime::new(x.year(), x.month(), x.month_day(), x.hour(), x.minute(), x.second(), 0).map(|y| y.unix_time());
+                                        if back.ok() != Some(tt + s) && bad.len() < 20 {
+                                            bad.push(("C".into(), tt + s));
+                                        }
+                                    }
+                                }
+                                Err(_) => {
+                                    // outside the supported range: the whole year must be outside (checked against the spec's range ends by TLC vectors)
+                                    let y = base.0 as i64 + 400 * c;
+                                    if (i32::MIN as i64..=i32::MAX as i64).contains(&y) && bad.len() < 20 {
+                                        bad.push(("B-range".into(), tt));
+                                    }
+                                }
+                            }
+                        }
+                        d += nthreads;
+                    }
+                    (na, nb, nc, bad)
+                }));
+            }
+            let (mut na, mut nb, mut nc) = (0u64, 0u64, 0u64);
+            let mut out = BufWriter::new(std::fs::File::create(&args[3]).expect("cannot create output"));
+            let mut nbad = 0u64;
+            for h in handles {
+                let (a, b, c, bad) = h.join().expect("lemma worker died");
+                na += a;
+                nb += b;
+                nc += c;
+                for (which, t) in bad {
+                    nbad += 1;
+                    let mut st = exec::State::new();
+                    let a = serde_json::json!({"t": wire::w(t as i128), "ns": 0, "via": "utc"});
+                    let r = exec::exec("gmtime", &a, &mut st);
+                    serde_json::to_writer(&mut out, &serde_json::json!({"op": "gmtime", "a": a, "r": r, "lemma": which})).unwrap();
+                    out.write_all(b"\n").unwrap();
+                }
+            }
+            out.flush().unwrap();
+            println!("{{\"A_calls\":{na},\"B_calls\":{nb},\"C_calls\":{nc},\"violations\":{nbad}}}");
+        }
         Some("one") => {
             let mut st = exec::State::new();
             for l in &args[2..] {
